@@ -183,18 +183,27 @@ func c16Topology(c *Ctx, idx int, total int, steps []topoStep, failedUse bool, r
 		r.Obs("failed_use_then_topology", 1)
 	}
 	listed := map[int]bool{1: true, 2: total >= 2}
-	peersAnswered := func() int {
+	peersAnswered := func() int { // how often the proxy has read system.peers so far (refreshes and control (re)connects alike)
 		n := 0
-		for _, x := range bed.Cluster.ControlConns() {
-			n += x.PeersAnswered()
+		for _, e := range bed.Log.Snapshot() {
+			if e.Src == "backend" && e.K == "reply" && e.Outcome == "System:peers" {
+				n++
+			}
 		}
 		return n
+	}
+	controlUp := func() bool {
+		return waitFor(func() bool { return len(bed.Cluster.EstablishedControlConns()) >= 1 }, 20*time.Second)
 	}
 	wd := 20 * time.Second
 	if realWindow {
 		wd = 40 * time.Second
 	}
 	for si, st := range steps {
+		if !controlUp() { // events are only announced on an established control connection
+			r.Inconc("c16: no established control connection before a topology step")
+			return
+		}
 		before := peersAnswered()
 		ip := net.ParseIP(bed.Cluster.HostIP(st.Host))
 		inet := &primitive.Inet{Addr: ip, Port: int32(bed.Cluster.Port)}
@@ -204,17 +213,53 @@ func c16Topology(c *Ctx, idx int, total int, steps []topoStep, failedUse bool, r
 			listed[st.Host] = true
 			bed.Cluster.Emit(&message.TopologyChangeEvent{ChangeType: primitive.TopologyChangeTypeNewNode, Address: inet})
 		case "remove":
+			// a node serving the control connection always lists itself (system.local): move the control connection away first
+			for tries := 0; tries < 8; tries++ {
+				on := false
+				for _, x := range bed.Cluster.ControlConns() {
+					if x.Host.Idx == st.Host {
+						on = true
+						x.Kill(false)
+					}
+				}
+				if !on {
+					break
+				}
+				time.Sleep(10 * time.Millisecond)
+				if !controlUp() {
+					r.Inconc("c16: control connection did not come back")
+					return
+				}
+			}
+			before = peersAnswered()
 			bed.Cluster.SetListed(st.Host, false)
 			listed[st.Host] = false
 			bed.Cluster.Emit(&message.TopologyChangeEvent{ChangeType: primitive.TopologyChangeTypeRemovedNode, Address: inet})
+		case "ctl-loss-in-window":
+			// a topology event schedules a refresh; the control connection is lost before the refresh window ends
+			bed.Cluster.Emit(&message.StatusChangeEvent{ChangeType: primitive.StatusChangeTypeUp, Address: inet})
+			for _, x := range bed.Cluster.ControlConns() {
+				x.Kill(false)
+			}
+			if !waitFor(func() bool { return len(bed.Cluster.EstablishedControlConns()) >= 1 }, wd) {
+				r.Inconc("c16: control connection did not come back")
+				return
+			}
+			time.Sleep(3 * window) // the pending refresh (if any) fires on the new connection
+			before = -1            // the reconnect itself re-queried the tables; nothing more to wait for in this step
 		case "restart":
 			bed.Cluster.Hosts[st.Host-1].Stop()
 			time.Sleep(5 * time.Millisecond)
 			_ = bed.Cluster.Hosts[st.Host-1].Start(true)
+			if !controlUp() { // the control connection may have been on the restarted host
+				r.Inconc("c16: no established control connection after a restart")
+				return
+			}
+			before = peersAnswered()
 			bed.Cluster.Emit(&message.StatusChangeEvent{ChangeType: primitive.StatusChangeTypeUp, Address: inet})
 		}
 		// the observable refresh: the control connection re-queries system.peers
-		if !waitFor(func() bool { return peersAnswered() > before || len(bed.Cluster.ControlConns()) == 0 }, wd) {
+		if !waitFor(func() bool { return peersAnswered() > before }, wd) {
 			r.Violate(mon.Violation{Signature: "C16/no-refresh/" + st.Op, Detail: fmt.Sprintf("after %s of host %d and the topology event the control connection never re-queried system.peers (watchdog %s)", st.Op, st.Host, wd), Scenario: scenario})
 			return
 		}
@@ -342,6 +387,75 @@ func c16Heal(c *Ctx, idx int, hosts, conns int, fault string) {
 			all[i] = i + 1
 		}
 		bed.Cluster.KillHosts(idx%2 == 0, all...)
+	case "stop-all-restart-one":
+		for _, h := range bed.Cluster.Hosts {
+			h.Stop()
+		}
+		before := len(bed.Policy.Calls.Snapshot())
+		if !waitFor(func() bool {
+			n := 0
+			for _, cl := range bed.Policy.Calls.Snapshot()[before:] {
+				if cl.Kind == "delay" {
+					n++
+				}
+			}
+			return n >= 2*hosts+2 // every pool and the control connection have failed at least one reconnect
+		}, 10*time.Second) {
+			r.Inconc("c16 heal: no failed reconnects recorded while everything is down")
+			return
+		}
+		back := 1 + (idx/6)%hosts
+		_ = bed.Cluster.Hosts[back-1].Start(false)
+		// the control connection must come back on the one host that accepts again, within a bounded number of attempts
+		attemptsBefore := len(bed.Policy.Calls.Snapshot())
+		okc := waitFor(func() bool {
+			for _, x := range bed.Cluster.EstablishedControlConns() {
+				if x.Host.Idx == back {
+					return true
+				}
+			}
+			n := 0
+			for _, cl := range bed.Policy.Calls.Snapshot()[attemptsBefore:] {
+				if cl.Kind == "delay" {
+					n++
+				}
+			}
+			return n > 40*(hosts+2) // logical bound: far more reconnect attempts than hosts, and still no control connection
+		}, 30*time.Second)
+		established := false
+		for _, x := range bed.Cluster.EstablishedControlConns() {
+			established = established || x.Host.Idx == back
+		}
+		r.Obs("heal:stop-all-restart-one", 1)
+		r.Eval(1)
+		r.NonTrivial(fmt.Sprintf("heal/stop-all-restart-one/h%d/back=%d", hosts, back))
+		if !established {
+			if okc {
+				r.Violate(mon.Violation{Signature: "C16/control-not-failed-over-to-reachable-host", Detail: fmt.Sprintf("all %d hosts went down, then host %d came back: after more than %d further reconnect attempts the control connection was still not re-established on it", hosts, back, 40*(hosts+2)), Scenario: scenario})
+			} else {
+				r.Inconc("c16 heal: control connection not re-established before the watchdog (stop-all-restart-one)")
+			}
+			return
+		}
+		// definitely connected: the connection has also answered a heartbeat sent after its system queries
+		hbSeen := waitFor(func() bool {
+			for _, x := range bed.Cluster.EstablishedControlConns() {
+				if x.Host.Idx == back && bed.Cluster.OptionsCount(x.ID) >= 1 {
+					return true
+				}
+			}
+			return false
+		}, 5*time.Second)
+		if hbSeen {
+			if d := bed.Proxy.OutageDuration(); d != 0 {
+				r.Violate(mon.Violation{Signature: "C16/outage-reported-while-connected", Detail: fmt.Sprintf("OutageDuration() = %s although a control connection is established again and answering heartbeats", d), Scenario: scenario})
+			}
+		}
+		for _, h := range bed.Cluster.Hosts {
+			_ = h.Start(false)
+		}
+		checkPolicyLog(r, bed, base, max, scenario)
+		return
 	case "mute-pooled":
 		var victim *fakecass.Conn
 		for _, x := range bed.Cluster.Hosts[target-1].Conns() {
@@ -670,6 +784,8 @@ func runC16(c *Ctx) {
 		{3, []topoStep{{"add", 3}, {"remove", 3}, {"add", 3}}, false},
 		{2, []topoStep{{"restart", 2}, {"remove", 2}, {"add", 2}}, true},
 		{4, []topoStep{{"add", 3}, {"add", 4}, {"remove", 2}}, false},
+		{3, []topoStep{{"ctl-loss-in-window", 2}, {"add", 3}, {"remove", 2}}, false},
+		{4, []topoStep{{"add", 3}, {"ctl-loss-in-window", 3}, {"add", 4}}, false},
 	}
 	for i, f := range fixed {
 		if j := next(); c.Mine(j) {
@@ -697,6 +813,9 @@ func runC16(c *Ctx) {
 				}
 			}
 			st := cand[rng.Intn(len(cand))]
+			if rng.Intn(6) == 0 {
+				st = topoStep{"ctl-loss-in-window", 2}
+			}
 			if st.Op == "add" {
 				listed[st.Host] = true
 			} else if st.Op == "remove" {
@@ -713,8 +832,8 @@ func runC16(c *Ctx) {
 			}
 		}
 	}
-	faults := []string{"kill-pooled", "kill-host", "kill-control", "kill-all", "mute-pooled", "mute-control"}
-	for i := 0; i < c.Pick(24, 240); i++ {
+	faults := []string{"kill-pooled", "kill-host", "kill-control", "kill-all", "mute-pooled", "mute-control", "stop-all-restart-one"}
+	for i := 0; i < c.Pick(28, 280); i++ {
 		if j := next(); c.Mine(j) {
 			c16Heal(c, i, 1+i%4, 1+(i/4)%2, faults[i%len(faults)])
 		}
